@@ -330,8 +330,33 @@ def eval_tree(node, s):
 
 
 # ------------------------------------------------------------------ rendering
-_WS = ["", " ", "  ", "\t"]
-_WS1 = [" ", " ", "  ", "\t"]
+# whitespace between tokens: the grammar skips pyparsing's default whitespace (space, tab, CR, LF), so a filter may be
+# spread over several lines (e.g. read from a file).  A hash of the node's style word selects the variant.
+_WS_VARIANTS = [
+    (["", " ", "  ", "\t"], [" ", " ", "  ", "\t"]),
+    (["", " ", "  ", "\t"], [" ", " ", "  ", "\t"]),
+    (["", "\n", " \n", "\r\n"], ["\n", " ", "\n  ", "\r\n"]),
+    (["", " ", "\r", "\n\t"], [" ", "\n", "\r", " \n "]),
+]
+
+
+def _mix(st):
+    # generated style words are biased towards small numbers, so the selector is a hash of the bits above the lowest
+    # six (styles < 64, as used in hand-written witnesses, always select the plain variant)
+    return ((st >> 6) * 2654435761) & 0xFFFFFFFF
+
+
+def _ws(st):
+    return _WS_VARIANTS[(_mix(st) >> 20) & 3]
+
+
+EDGE_WS = ["", "", "", " ", "\n", "\r\n", "\t", " \n"]
+
+
+def edge_ws(tree):
+    """leading / trailing whitespace of the whole expression (a trailing newline is what a file gives)"""
+    st = tree[-1]
+    return EDGE_WS[(_mix(st) >> 12) & 7], EDGE_WS[(_mix(st) >> 16) & 7]
 
 
 def quote_rex(regex, style):
@@ -356,11 +381,11 @@ def render(node, safe=False):
     if k == "U":
         return "~" + node[1], "tilde", "code"
     if k == "C":
-        sep = " " if safe else _WS1[st & 3]
+        sep = " " if safe else _ws(st)[1][st & 3]
         return "~c" + sep + ("0" if (st >> 2) & 7 == 0 and not safe else "") + str(node[1]), "tilde", "num"
     if k == "R":
         txt, kind = quote_rex(node[2], st)
-        sep = " " if safe else _WS1[(st >> 4) & 3]
+        sep = " " if safe else _ws(st)[1][(st >> 4) & 3]
         return "~" + node[1] + sep + txt, "tilde", kind
     if k == "N":
         regex = node[1]
@@ -373,7 +398,7 @@ def render(node, safe=False):
         return _paren(render(node[1], safe), st, safe)
     if k == "!":
         inner = _child(node[1], 3, st >> 3, safe)
-        sep = " " if safe else ["", " "][st & 1]
+        sep = " " if safe else _ws(st)[0][st & 1]
         return "!" + sep + inner[0], "bang", inner[2]
     # n-ary
     parts = [_child(c, PREC[k], (st >> (5 * i + 3)), safe, right=i > 0) for i, c in enumerate(node[1])]
@@ -381,14 +406,14 @@ def render(node, safe=False):
     for i, (txt, s0, e0) in enumerate(parts[1:]):
         w = (st >> (4 * i)) & 15
         if k == "J":
-            sep = _WS1[w & 3]
+            sep = _ws(st)[1][w & 3]
             if not safe and (w >> 2) == 0 and (end in ("paren", "quote") or s0 == "paren"):
                 sep = ""
             if safe:
                 sep = " "
             out += sep + txt
         else:
-            l, r = _WS[w & 3], _WS[(w >> 2) & 3]
+            l, r = _ws(st)[0][w & 3], _ws(st)[0][(w >> 2) & 3]
             if end == "unq" and not l:
                 l = " "  # documented: only reserved characters end an unquoted regex
             if safe:
@@ -400,7 +425,7 @@ def render(node, safe=False):
 
 def _paren(inner, st, safe):
     txt, s0, e0 = inner
-    l, r = ["", " "][st & 1], ["", " "][(st >> 1) & 1]
+    l, r = _ws(st)[0][st & 1], _ws(st)[0][(st >> 1) & 1]
     if safe:
         l = r = " "
     return "(" + l + txt + r + ")", "paren", "paren"
